@@ -42,6 +42,7 @@ type (
 		disp            *cmdDispatcher
 		cmdQueue        *[]*cmdContext
 		watches         map[watchKey]uint64
+		queueError      bool
 		blocked         int32
 		unblockPending  int32
 		unblockCh       chan unblockReason
